@@ -10,17 +10,19 @@ import (
 )
 
 type Clause struct {
-	Kind  string   // requires ensures invariant modifies sets havoc decreases assert-at
-	Tags  []string // property tags; empty = every property
-	Loop  int      // invariant: loop ordinal (1-based)
-	Text  string
-	E     Expr
-	LHS   *ECall // sets g(args) := E   (LHS.Fun = ghost name)
-	Names []string
-	File  string
-	Line  int
-	Ord   int // ordinal among clauses of the same kind in the contract (1-based)
-	Label string
+	Kind    string   // requires ensures invariant modifies sets havoc decreases assert-at
+	Tags    []string // property tags; empty = every property
+	Loop    int      // invariant: loop ordinal (1-based)
+	Text    string
+	E       Expr
+	LHS     *ECall // sets g(args) := E   (LHS.Fun = ghost name)
+	Names   []string
+	File    string
+	Line    int
+	Ord     int // ordinal among clauses of the same kind in the contract (1-based)
+	Label   string
+	Reached bool
+	Cases   []Expr
 }
 
 type Contract struct {
@@ -105,7 +107,7 @@ func resolveSort(s string) string {
 	return s // raw SMT sort, e.g. (Array Int Bool)
 }
 
-var tagRe = regexp.MustCompile(`^\[([A-Za-z0-9,]+)\]\s*`)
+var tagRe = regexp.MustCompile(`^\[([A-Za-z0-9,+]+)\]\s*`)
 
 func splitTags(s string) ([]string, string) {
 	if m := tagRe.FindStringSubmatch(s); m != nil {
@@ -115,7 +117,7 @@ func splitTags(s string) ([]string, string) {
 }
 
 var clauseKinds = map[string]bool{"requires": true, "ensures": true, "invariant": true, "modifies": true, "sets": true,
-	"havoc": true, "decreases": true, "flags": true, "results": true, "assert": true}
+	"havoc": true, "decreases": true, "flags": true, "results": true, "assert": true, "cases": true}
 
 // splitTopLevelArgs splits "a S1, b S2" respecting parentheses.
 func splitTop(s string, sep byte) []string {
@@ -426,6 +428,21 @@ func parseClause(c *Clause) error {
 			c.Names = append(c.Names, n)
 		}
 		return nil
+	case "cases":
+		// cases <param> : "lit" | "lit" | ...   (the function is verified once per literal)
+		i := strings.Index(text, ":")
+		if i < 0 {
+			return fail(fmt.Errorf("cases param : lit | lit"))
+		}
+		c.Names = []string{strings.TrimSpace(text[:i])}
+		for _, l := range strings.Split(text[i+1:], "|") {
+			e, err := ParseExpr(strings.TrimSpace(l))
+			if err != nil {
+				return fail(err)
+			}
+			c.Cases = append(c.Cases, e)
+		}
+		return nil
 	case "invariant":
 		text = strings.TrimSpace(text)
 		if !strings.HasPrefix(text, "#") {
@@ -438,6 +455,18 @@ func parseClause(c *Clause) error {
 		}
 		fmt.Sscanf(text[1:i], "%d", &k)
 		c.Loop = k
+		text = text[i+1:]
+	case "assert":
+		// assert @<callee substring> [label:] expr
+		text = strings.TrimSpace(text)
+		if !strings.HasPrefix(text, "@") {
+			return fail(fmt.Errorf("assert needs a call site: assert @callee expr"))
+		}
+		i := strings.IndexAny(text, " \t")
+		if i < 0 {
+			return fail(fmt.Errorf("assert needs an expression"))
+		}
+		c.Names = []string{text[1:i]}
 		text = text[i+1:]
 	case "sets":
 		i := strings.Index(text, ":=")
@@ -485,12 +514,27 @@ func qualifyKey(key, pkgPath string) string {
 	return pkgPath + "." + key
 }
 
+// tagActive: a clause is in force for property prop when it is untagged, tagged
+// with prop, or tagged "Cxx+" (owned – i.e. proved – by Cxx, usable everywhere).
 func tagActive(tags []string, prop string) bool {
 	if len(tags) == 0 {
 		return true
 	}
 	for _, t := range tags {
-		if t == prop {
+		if t == prop || strings.HasSuffix(t, "+") {
+			return true
+		}
+	}
+	return false
+}
+
+// tagOwned: the clause is an obligation of prop's own check.
+func tagOwned(tags []string, prop string) bool {
+	if len(tags) == 0 {
+		return true
+	}
+	for _, t := range tags {
+		if t == prop || t == prop+"+" {
 			return true
 		}
 	}
